@@ -381,8 +381,17 @@ def _part2(ctx):
             bad_in = info["in_shape"] + [1] if not G.is_nested(info["in_shape"]) else info["in_shape"] + [[1]]
             bad_out = info["out_shape"] + [1] if not G.is_nested(info["out_shape"]) else info["out_shape"] + [[1]]
             bad_dt = "complex64" if info["out_dtype"] != "complex64" else "float32"
-            mod = ("ok", om.call("expr", e=e, xs=[G.encs(x) for x in xs], ys=[G.encs(y) for y in ys],
-                                 probe_xsh=bad_in, probe_ysh=info["out_shape"], probe_ydt=bad_dt)) if True else None
+            try:
+                mod = ("ok", om.call("expr", e=e, xs=[G.encs(x) for x in xs], ys=[G.encs(y) for y in ys],
+                                     probe_xsh=bad_in, probe_ysh=info["out_shape"], probe_ydt=bad_dt))
+            except ModelErr as ex:
+                # the implementation accepts what the model rejects: a disagreement, never an infrastructure failure
+                ctx.case({"name": name, "accepted-by-impl-rejected-by-model": ex.kind}, None)
+                ctx.disagree("opalg.meta:constructible", {"e": e, "name": name}, "ok", "err:" + ex.kind, oracle=orc)
+                bad += 1
+                if bad >= 10:
+                    break
+                continue
             mod[1]["eval"] = [G.decs(v) for v in mod[1]["eval"]]
             mod[1]["adj"] = [G.decs(v) for v in mod[1]["adj"]]
             diffs = [d for d in G.compare(impl, mod, e, check_adj=False, check_vals=False)]
